@@ -98,7 +98,10 @@ Commit ==
                          iso # <<>> => S(d.deps) = iso[1])
                   /\ Chk("C38", "fresh-actor-seq",
                          \A x \in A \cup Qp : ~(chg[x].actor = d.actor /\ chg[x].seq = d.seq))
-                  /\ Chk("C10", "hash-is-new", h \notin DOMAIN chg)
+                  \* content addressing: a hash seen before names the same change (two replicas that share an actor id
+                  \* can commit byte-identical changes) - it is never reused for a different one
+                  /\ Chk("C10", "hash-is-new-or-names-the-same-change",
+                         h \in DOMAIN chg => (chg[h] = DefRec(d) /\ digests[h] = d.digest /\ h \notin A))
                   /\ ObsOK(r, A \cup {h}, Qp, c2)
                   /\ chg' = c2
                   /\ digests' = (h :> d.digest) @@ digests
